@@ -796,6 +796,11 @@ def PState.repeatLast (st : PState) (mn : Nat) (mx : Option Nat) (lazy : Bool) (
     let greedy := if st.flags.swap then lazy else !lazy
     .ok { st with cat := mkRep mn mx greedy x :: xs }
 
+/-- the `?` suffix of a repetition operator -/
+def takeLazy : Str → Bool × Str
+  | '?' :: r => (true, r)
+  | r => (false, r)
+
 /-- the loop of `parse_inner` (all nesting levels, explicit stack); fuel = pattern length + 1 -/
 def parseLoop : Nat → PState → Str → PR PState
   | 0, _, _ => .unsup "fuel"
@@ -824,7 +829,7 @@ def parseLoop : Nat → PState → Str → PR PState
       | .unsup w => .unsup w
       | .ok (rs, r) => parseLoop f (st.pushItem (Item.ofCls rs)) r
     else if c == '?' || c == '*' || c == '+' then
-      let (lazy, r) := match cs with | '?' :: r => (true, r) | r => (false, r)
+      let (lazy, r) := takeLazy cs
       let (mn, mx) : Nat × Option Nat := if c == '?' then (0, some 1) else if c == '*' then (0, none) else (1, none)
       match st.repeatLast mn mx lazy "uncounted" with
       | .err e => .err e
@@ -838,7 +843,7 @@ def parseLoop : Nat → PState → Str → PR PState
         | .err e => .err e
         | .unsup w => .unsup w
         | .ok (mn, mx, r0) =>
-          let (lazy, r) := match r0 with | '?' :: r => (true, r) | r => (false, r)
+          let (lazy, r) := takeLazy r0
           if (match mx with | some n => decide (mn > n) | none => false) then
             .err "found counted repetition with a min bigger than its max"
           else
